@@ -138,3 +138,353 @@ Proof.
   induction mps as [|mp r IH]; intros st Hc; cbn [run_lattice_class fold_left]; [reflexivity|].
   rewrite src_lattice_assign by exact Hc. apply IH. rewrite lattice_assign_used_length. exact Hc.
 Qed.
+
+(* ================================================================== the functions around that body (fourth session) *)
+
+Lemma aexec_seq L ms lb rt rl a b x s :
+  aexec L ms lb rt rl (ASeq a b) x s = match aexec L ms lb rt rl a x s with Some (s', false) => aexec L ms lb rt rl b x s' | other => other end.
+Proof. reflexivity. Qed.
+Lemma aexec_for_used L ms lb rt rl body x s c : ac_cls x = Some c ->
+  aexec L ms lb rt rl (AForUsedBy body) x s
+  = afor (fun mp s' => aexec L ms lb rt rl body (mk_acx (ac_cls x) (ac_base x) (Some mp) (ac_pd x)) s') (used_by_vp ms c) s.
+Proof. intro H. cbn [aexec]. now rewrite H. Qed.
+Lemma aexec_for_derived L ms lb rt rl body x s c : ac_cls x = Some c ->
+  aexec L ms lb rt rl (AForDerived body) x s
+  = afor (fun d s' => aexec L ms lb rt rl body (mk_acx (ac_cls x) (ac_base x) (ac_mp x) (Some d)) s') (nth c (l_derived L) []) s.
+Proof. intro H. cbn [aexec]. now rewrite H. Qed.
+Lemma aexec_for_classes L ms lb rt rl body x s :
+  aexec L ms lb rt rl (AForClasses body) x s
+  = afor (fun c s' => aexec L ms lb rt rl body (mk_acx (Some c) None None None) s') (seq 0 (length (l_keys L))) s.
+Proof. reflexivity. Qed.
+
+Lemma aexec_next_from_base L ms lb rt rl x s b : ac_base x = Some b ->
+  aexec L ms lb rt rl ANextFromBase x s = Some (mk_ast (as_st s) (Some b), false).
+Proof. intro H. cbn [aexec]. now rewrite H. Qed.
+Lemma aexec_first_zero L ms lb rt rl x s c : ac_cls x = Some c ->
+  aexec L ms lb rt rl AFirstSlotZero x s = Some (mk_ast (upd_first (as_st s) c 0) (as_next s), false).
+Proof. intro H. cbn [aexec]. now rewrite H. Qed.
+Lemma aexec_vtbl_next L ms lb rt rl x s c nx : ac_cls x = Some c -> as_next s = Some nx ->
+  aexec L ms lb rt rl AVtblResizeNext x s = Some (mk_ast (upd_vlen (as_st s) c nx) (as_next s), false).
+Proof. intros H1 H2. cbn [aexec]. now rewrite H1, H2. Qed.
+Lemma aexec_return_if_marked L ms lb rt rl x s c : ac_cls x = Some c ->
+  aexec L ms lb rt rl AReturnIfMarked x s = Some (s, nth c (s_mark (as_st s)) false).
+Proof. intro H. cbn [aexec]. now rewrite H. Qed.
+Lemma aexec_mark L ms lb rt rl x s c : ac_cls x = Some c ->
+  aexec L ms lb rt rl AMark x s = Some (mk_ast (upd_mark (as_st s) (set_nth c (s_mark (as_st s)) true)) (as_next s), false).
+Proof. intro H. cbn [aexec]. now rewrite H. Qed.
+Lemma aexec_if_usedby L ms lb rt rl body x s c : ac_cls x = Some c ->
+  aexec L ms lb rt rl (AIfUsedByNonEmpty body) x s = match used_by_vp ms c with [] => Some (s, false) | _ :: _ => aexec L ms lb rt rl body x s end.
+Proof. intro H. cbn [aexec]. now rewrite H. Qed.
+
+(* ------------------------------------------------------------------ assign_tree_slots *)
+Definition tree_step (p : sstate * nat) (mp : nat * nat) : sstate * nat :=
+  let '(s, nx) := p in
+  (mk_ss (set_slot s mp nx) (s_used s) (s_resv s) (s_mark s) (s_first s) (s_vlen s) (s_fuel_ok s), S nx).
+
+Lemma tree_used_loop L ms lb rt rl x : forall mps st nx,
+  afor (fun mp s' => aexec L ms lb rt rl (ASeq AStoreNext AIncNext) (mk_acx (ac_cls x) (ac_base x) (Some mp) (ac_pd x)) s') mps (mk_ast st (Some nx))
+  = Some (mk_ast (fst (fold_left tree_step mps (st, nx))) (Some (snd (fold_left tree_step mps (st, nx)))), false).
+Proof.
+  induction mps as [|mp mps IH]; intros st nx; cbn [afor fold_left]; [reflexivity|].
+  cbn [aexec ac_mp as_next as_st]. rewrite IH. reflexivity.
+Qed.
+
+Lemma tree_derived_loop L ms lb rt rl x nx (F : nat -> nat -> sstate -> sstate) :
+  (forall d st, rt d nx st = Some (F d nx st)) ->
+  forall ds st,
+  afor (fun d s' => aexec L ms lb rt rl ARecurseTree (mk_acx (ac_cls x) (ac_base x) (ac_mp x) (Some d)) s') ds (mk_ast st (Some nx))
+  = Some (mk_ast (fold_left (fun s d => F d nx s) ds st) (Some nx), false).
+Proof.
+  intro HF. induction ds as [|d ds IH]; intro st; cbn [afor fold_left]; [reflexivity|].
+  cbn [aexec ac_pd as_next as_st]. rewrite HF. apply IH.
+Qed.
+
+Definition tree_body : astmt :=
+  ASeq ANextFromBase (ASeq (AForUsedBy (ASeq AStoreNext AIncNext)) (ASeq AFirstSlotZero (ASeq AVtblResizeNext (AForDerived ARecurseTree)))).
+
+(* one level of the recursion, the calls one level down being given *)
+Definition tree_level (L : lattice) (ms : list cmeth) (F : nat -> nat -> sstate -> sstate) (st : sstate) (c base : nat) : sstate :=
+  let '(st1, next) :=
+    fold_left (fun '(s, nx) mp => (mk_ss (set_slot s mp nx) (s_used s) (s_resv s) (s_mark s) (s_first s) (s_vlen s) (s_fuel_ok s), S nx))
+              (used_by_vp ms c) (st, base) in
+  let st2 := mk_ss (s_slots st1) (s_used st1) (s_resv st1) (s_mark st1) (set_nth c (s_first st1) 0) (set_nth c (s_vlen st1) next) (s_fuel_ok st1) in
+  fold_left (fun s d => F d next s) (nth c (l_derived L) []) st2.
+
+Lemma tree_level_src L ms rt (F : nat -> nat -> sstate -> sstate) c base st :
+  (forall d nx s, rt d nx s = Some (F d nx s)) ->
+  exists nx', aexec L ms LSkip rt no_lat tree_body (mk_acx (Some c) (Some base) None None) (mk_ast st None)
+              = Some (mk_ast (tree_level L ms F st c base) nx', false).
+Proof.
+  intro HF. unfold tree_body, tree_level.
+  set (x := mk_acx (Some c) (Some base) None None).
+  rewrite aexec_seq, (aexec_next_from_base _ _ _ _ _ x _ base eq_refl). cbn [as_st].
+  rewrite aexec_seq, (aexec_for_used _ _ _ _ _ _ x _ c eq_refl), tree_used_loop.
+  assert (Efold : fold_left tree_step (used_by_vp ms c) (st, base)
+                  = fold_left (fun '(s, nx) mp => (mk_ss (set_slot s mp nx) (s_used s) (s_resv s) (s_mark s) (s_first s) (s_vlen s) (s_fuel_ok s), S nx))
+                              (used_by_vp ms c) (st, base)).
+  { generalize (st, base). induction (used_by_vp ms c) as [|mp r IHr]; intro p; cbn [fold_left]; [reflexivity|]. rewrite IHr. now destruct p. }
+  rewrite <- Efold. destruct (fold_left tree_step (used_by_vp ms c) (st, base)) as [st1 next]. cbn [fst snd].
+  rewrite aexec_seq, (aexec_first_zero _ _ _ _ _ x _ c eq_refl). cbn [as_st as_next].
+  rewrite aexec_seq, (aexec_vtbl_next _ _ _ _ _ x (mk_ast (upd_first st1 c 0) (Some next)) c next eq_refl eq_refl). cbn [as_st as_next].
+  rewrite (aexec_for_derived _ _ _ _ _ _ x _ c eq_refl).
+  rewrite (tree_derived_loop L ms LSkip rt no_lat x next F) by (intros d s0; apply HF).
+  eexists. reflexivity.
+Qed.
+
+Lemma tree_fun_S f L ms body c base st :
+  tree_fun (S f) L ms body c base st
+  = match aexec L ms LSkip (tree_fun f L ms body) no_lat body (mk_acx (Some c) (Some base) None None) (mk_ast st None) with
+    | Some (s, _) => Some (as_st s)
+    | None => None
+    end.
+Proof. reflexivity. Qed.
+
+Theorem src_assign_tree L ms : forall fuel c base st,
+  tree_fun fuel L ms gen_tree_slots c base st = Some (assign_tree fuel L ms st c base).
+Proof.
+  change gen_tree_slots with tree_body.
+  induction fuel as [|f IH]; intros c base st; [reflexivity|].
+  rewrite tree_fun_S.
+  destruct (tree_level_src L ms (tree_fun f L ms tree_body) (fun d nx s => assign_tree f L ms s d nx) c base st) as [nx' E];
+    [intros d nx s; apply IH|].
+  rewrite E. reflexivity.
+Qed.
+
+(* ------------------------------------------------------------------ assign_lattice_slots *)
+Definition sshape (n : nat) (st : sstate) : Prop := length (s_used st) = n /\ length (s_first st) = n.
+
+Lemma lattice_assign_first L c st mp : s_first (lattice_assign L c st mp) = s_first st.
+Proof.
+  unfold lattice_assign.
+  match goal with |- context [fold_left ?f (nth c (l_cov L) []) ?init] => destruct (fold_left f (nth c (l_cov L) []) init) as [us rs] end.
+  reflexivity.
+Qed.
+
+Lemma fold_lattice_assign_shape L c n : forall mps st, sshape n st -> sshape n (fold_left (lattice_assign L c) mps st).
+Proof.
+  induction mps as [|mp r IH]; intros st H; cbn [fold_left]; [exact H|]. apply IH.
+  destruct H as [H1 H2]. split; [now rewrite lattice_assign_used_length|now rewrite lattice_assign_first].
+Qed.
+
+Lemma assign_lattice_shape L ms n : forall fuel c st, sshape n st -> sshape n (assign_lattice fuel L ms st c).
+Proof.
+  induction fuel as [|f IH]; intros c st H; cbn [assign_lattice]; [exact H|].
+  destruct (nth c (s_mark st) false); [exact H|].
+  set (st1 := fold_left (lattice_assign L c) (used_by_vp ms c) _).
+  assert (H1 : sshape n st1) by (apply fold_lattice_assign_shape; exact H).
+  clearbody st1. revert st1 H1. induction (nth c (l_derived L) []) as [|d ds IHd]; intros st1 H1; cbn [fold_left]; [exact H1|].
+  apply IHd. now apply IH.
+Qed.
+
+Lemma assign_tree_shape L ms n : forall fuel c base st, sshape n st -> sshape n (assign_tree fuel L ms st c base).
+Proof.
+  induction fuel as [|f IH]; intros c base st H; cbn [assign_tree]; [exact H|].
+  assert (Hf : forall mps p, sshape n (fst p) ->
+            sshape n (fst (fold_left (fun '(s, nx) mp => (mk_ss (set_slot s mp nx) (s_used s) (s_resv s) (s_mark s) (s_first s) (s_vlen s) (s_fuel_ok s), S nx)) mps p))).
+  { induction mps as [|mp r IHr]; intros [s nx] Hp; cbn [fold_left]; [exact Hp|]. apply IHr. exact Hp. }
+  specialize (Hf (used_by_vp ms c) (st, base) H).
+  destruct (fold_left _ (used_by_vp ms c) (st, base)) as [st1 next]. cbn [fst] in Hf.
+  set (st2 := mk_ss _ _ _ _ _ _ _).
+  assert (H2 : sshape n st2) by (destruct Hf as [A B]; split; [exact A|unfold st2; cbn [s_first]; now rewrite length_set_nth]).
+  clearbody st2. revert st2 H2. induction (nth c (l_derived L) []) as [|d ds IHd]; intros st2 H2; cbn [fold_left]; [exact H2|].
+  apply IHd. now apply IH.
+Qed.
+
+Lemma aexec_lattice_body L ms lb rt rl x s c mp : ac_cls x = Some c -> ac_mp x = Some mp ->
+  aexec L ms lb rt rl ALatticeBody x s
+  = match run_lattice_assign L c mp lb (as_st s) with Some st' => Some (mk_ast st' (as_next s), false) | None => None end.
+Proof. intros H1 H2. cbn [aexec]. now rewrite H1, H2. Qed.
+Lemma aexec_recurse_lattice L ms lb rt rl x s d : ac_pd x = Some d ->
+  aexec L ms lb rt rl ARecurseLattice x s = match rl d (as_st s) with Some st' => Some (mk_ast st' (as_next s), false) | None => None end.
+Proof. intro H. cbn [aexec]. now rewrite H. Qed.
+
+Lemma lat_used_loop L ms rt rl x c : ac_cls x = Some c -> forall mps st nx, c < length (s_used st) ->
+  afor (fun mp s' => aexec L ms gen_lattice_assign rt rl ALatticeBody (mk_acx (ac_cls x) (ac_base x) (Some mp) (ac_pd x)) s') mps (mk_ast st nx)
+  = Some (mk_ast (fold_left (lattice_assign L c) mps st) nx, false).
+Proof.
+  intro Hx. induction mps as [|mp mps IH]; intros st nx Hc; cbn [afor fold_left]; [reflexivity|].
+  rewrite (aexec_lattice_body _ _ _ _ _ (mk_acx (ac_cls x) (ac_base x) (Some mp) (ac_pd x)) _ c mp Hx eq_refl). cbn [as_st as_next].
+  rewrite (src_lattice_assign L c mp st Hc).
+  apply IH. now rewrite lattice_assign_used_length.
+Qed.
+
+Definition lat_body_a : astmt := ASeq AReturnIfMarked (ASeq AMark (ASeq (AIfUsedByNonEmpty (AForUsedBy ALatticeBody)) (AForDerived ARecurseLattice))).
+Definition lat_body_b : astmt := ASeq AReturnIfMarked (ASeq AMark (ASeq (AForUsedBy ALatticeBody) (AForDerived ARecurseLattice))).
+
+(* one level of the recursion *)
+Definition lat_level (L : lattice) (ms : list cmeth) (F : nat -> sstate -> sstate) (st : sstate) (c : nat) : sstate :=
+  if nth c (s_mark st) false then st
+  else
+    let st0 := mk_ss (s_slots st) (s_used st) (s_resv st) (set_nth c (s_mark st) true) (s_first st) (s_vlen st) (s_fuel_ok st) in
+    let st1 := fold_left (lattice_assign L c) (used_by_vp ms c) st0 in
+    fold_left (fun s d => F d s) (nth c (l_derived L) []) st1.
+
+Lemma lat_derived_loop L ms lb rt rl x (F : nat -> sstate -> sstate) (P : sstate -> Prop) :
+  forall ds, (forall d st, In d ds -> P st -> rl d st = Some (F d st) /\ P (F d st)) ->
+  forall st nx, P st ->
+  afor (fun d s' => aexec L ms lb rt rl ARecurseLattice (mk_acx (ac_cls x) (ac_base x) (ac_mp x) (Some d)) s') ds (mk_ast st nx)
+  = Some (mk_ast (fold_left (fun s d => F d s) ds st) nx, false).
+Proof.
+  induction ds as [|d ds IH]; intros HF st nx HP; cbn [afor fold_left]; [reflexivity|].
+  rewrite (aexec_recurse_lattice _ _ _ _ _ (mk_acx (ac_cls x) (ac_base x) (ac_mp x) (Some d)) _ d eq_refl). cbn [as_st as_next].
+  destruct (HF d st (or_introl eq_refl) HP) as [E HP']. rewrite E. apply IH; [|exact HP'].
+  intros d' s' Hin. apply HF. now right.
+Qed.
+
+Lemma lat_level_src L ms rl (F : nat -> sstate -> sstate) n body c st :
+  body = lat_body_a \/ body = lat_body_b ->
+  (forall d s, In d (nth c (l_derived L) []) -> sshape n s -> rl d s = Some (F d s) /\ sshape n (F d s)) -> c < n -> sshape n st ->
+  exists nx' b, aexec L ms gen_lattice_assign no_tree rl body (mk_acx (Some c) None None None) (mk_ast st None)
+                = Some (mk_ast (lat_level L ms F st c) nx', b).
+Proof.
+  intros Hb HF Hc Hs. unfold lat_level.
+  set (x := mk_acx (Some c) None None None).
+  assert (Hhead : forall rest, aexec L ms gen_lattice_assign no_tree rl (ASeq AReturnIfMarked (ASeq AMark rest)) x (mk_ast st None)
+                  = if nth c (s_mark st) false then Some (mk_ast st None, true)
+                    else aexec L ms gen_lattice_assign no_tree rl rest x (mk_ast (upd_mark st (set_nth c (s_mark st) true)) None)).
+  { intro rest. rewrite aexec_seq, (aexec_return_if_marked _ _ _ _ _ x _ c eq_refl). cbn [as_st].
+    destruct (nth c (s_mark st) false); [reflexivity|].
+    rewrite aexec_seq, (aexec_mark _ _ _ _ _ x _ c eq_refl). reflexivity. }
+  set (st0 := upd_mark st (set_nth c (s_mark st) true)).
+  assert (Hs0 : sshape n st0) by exact Hs.
+  assert (Hc0 : c < length (s_used st0)) by (destruct Hs0 as [A _]; lia).
+  assert (Hused : aexec L ms gen_lattice_assign no_tree rl (AForUsedBy ALatticeBody) x (mk_ast st0 None)
+                  = Some (mk_ast (fold_left (lattice_assign L c) (used_by_vp ms c) st0) None, false)).
+  { rewrite (aexec_for_used _ _ _ _ _ _ x _ c eq_refl). now apply (lat_used_loop L ms _ _ x c eq_refl). }
+  assert (Hguard : aexec L ms gen_lattice_assign no_tree rl (AIfUsedByNonEmpty (AForUsedBy ALatticeBody)) x (mk_ast st0 None)
+                   = Some (mk_ast (fold_left (lattice_assign L c) (used_by_vp ms c) st0) None, false)).
+  { rewrite (aexec_if_usedby _ _ _ _ _ _ x _ c eq_refl). revert Hused. destruct (used_by_vp ms c); intro Hused; [reflexivity|exact Hused]. }
+  set (st1 := fold_left (lattice_assign L c) (used_by_vp ms c) st0) in *.
+  assert (Hs1 : sshape n st1) by (apply fold_lattice_assign_shape; exact Hs0).
+  assert (Hder : aexec L ms gen_lattice_assign no_tree rl (AForDerived ARecurseLattice) x (mk_ast st1 None)
+                 = Some (mk_ast (fold_left (fun s d => F d s) (nth c (l_derived L) []) st1) None, false)).
+  { rewrite (aexec_for_derived _ _ _ _ _ _ x _ c eq_refl). apply (lat_derived_loop L ms _ _ _ x F (sshape n) _ HF). exact Hs1. }
+  destruct Hb as [-> | ->]; unfold lat_body_a, lat_body_b; rewrite Hhead; fold st0.
+  - destruct (nth c (s_mark st) false); [eexists; eexists; reflexivity|].
+    rewrite aexec_seq, Hguard, Hder. eexists. eexists. reflexivity.
+  - destruct (nth c (s_mark st) false); [eexists; eexists; reflexivity|].
+    rewrite aexec_seq, Hused, Hder. eexists. eexists. reflexivity.
+Qed.
+
+Lemma lat_fun_S f L ms lb body c st :
+  lat_fun (S f) L ms lb body c st
+  = match aexec L ms lb no_tree (lat_fun f L ms lb body) body (mk_acx (Some c) None None None) (mk_ast st None) with
+    | Some (s, _) => Some (as_st s)
+    | None => None
+    end.
+Proof. reflexivity. Qed.
+
+Theorem lattice_generic L ms n body : body = lat_body_a \/ body = lat_body_b ->
+  (forall c d, In d (nth c (l_derived L) []) -> d < n) ->
+  forall fuel c st, c < n -> sshape n st ->
+  lat_fun fuel L ms gen_lattice_assign body c st = Some (assign_lattice fuel L ms st c).
+Proof.
+  intros Hb Hd. induction fuel as [|f IH]; intros c st Hc Hs; [reflexivity|].
+  rewrite lat_fun_S.
+  destruct (lat_level_src L ms (lat_fun f L ms gen_lattice_assign body) (fun d s => assign_lattice f L ms s d) n body c st Hb) as [nx' [b E]];
+    [| exact Hc | exact Hs |].
+  - intros d s Hin Hsd. split; [apply IH; [apply (Hd c d Hin)|exact Hsd]|now apply assign_lattice_shape].
+  - rewrite E. reflexivity.
+Qed.
+
+Theorem src_assign_lattice L ms n : (forall c d, In d (nth c (l_derived L) []) -> d < n) ->
+  forall fuel c st, c < n -> sshape n st ->
+  lat_fun fuel L ms gen_lattice_assign gen_lattice_slots c st = Some (assign_lattice fuel L ms st c).
+Proof.
+  first [ change gen_lattice_slots with lat_body_a; apply lattice_generic; now left
+        | change gen_lattice_slots with lat_body_b; apply lattice_generic; now right ].
+Qed.
+
+(* ------------------------------------------------------------------ assign_slots *)
+Definition main_body : astmt :=
+  ASeq ANewClassMark
+    (ASeq (AForClasses (AIfRoot (AIfTree ACallTree0 ACallLattice)))
+          (AForClasses (AIfUsedNonEmpty (ASeq ASetFirstFromUsed AVtblResizeUsed)))).
+
+Section Driver.
+  Variables (L : lattice) (ms : list cmeth) (lb : lstmt) (n : nat).
+  Variable rt : nat -> nat -> sstate -> option sstate.
+  Variable rl : nat -> sstate -> option sstate.
+  Variable FT : sstate -> nat -> sstate.
+  Variable FL : sstate -> nat -> sstate.
+  Hypothesis Hrt : forall c st, rt c 0 st = Some (FT st c).
+  Hypothesis Hrl : forall c st, c < n -> sshape n st -> rl c st = Some (FL st c).
+  Hypothesis HFT : forall c st, sshape n st -> sshape n (FT st c).
+  Hypothesis HFL : forall c st, sshape n st -> sshape n (FL st c).
+
+  Definition root_step (st : sstate) (c : nat) : sstate :=
+    match nth c (l_direct L) [] with
+    | [] => if is_tree_root L c then FT st c else FL st c
+    | _ => st
+    end.
+
+  Lemma roots_loop : forall cs st nx, (forall c, In c cs -> c < n) -> sshape n st ->
+    afor (fun c s' => aexec L ms lb rt rl (AIfRoot (AIfTree ACallTree0 ACallLattice)) (mk_acx (Some c) None None None) s') cs (mk_ast st nx)
+    = Some (mk_ast (fold_left root_step cs st) nx, false) /\ sshape n (fold_left root_step cs st).
+  Proof.
+    induction cs as [|c cs IH]; intros st nx Hcs Hs; cbn [afor fold_left]; [split; [reflexivity|exact Hs]|].
+    assert (Hstep : aexec L ms lb rt rl (AIfRoot (AIfTree ACallTree0 ACallLattice)) (mk_acx (Some c) None None None) (mk_ast st nx)
+                    = Some (mk_ast (root_step st c) nx, false) /\ sshape n (root_step st c)).
+    { unfold root_step. cbn [aexec ac_cls as_st as_next].
+      destruct (nth c (l_direct L) []); [|split; [reflexivity|exact Hs]].
+      destruct (is_tree_root L c).
+      - rewrite Hrt. split; [reflexivity|now apply HFT].
+      - rewrite Hrl by (try exact Hs; apply Hcs; now left). split; [reflexivity|now apply HFL]. }
+    destruct Hstep as [E Hs']. rewrite E. apply IH; [intros d Hd; apply Hcs; now right|exact Hs'].
+  Qed.
+
+  Definition alloc_step (st : sstate) (c : nat) : sstate :=
+    let used := nth c (s_used st) 0%N in
+    if N.eqb used 0 then st
+    else let fs := first_set used in
+         mk_ss (s_slots st) (s_used st) (s_resv st) (s_mark st)
+               (set_nth c (s_first st) fs) (set_nth c (s_vlen st) (N.size_nat used - fs)) (s_fuel_ok st).
+
+  Lemma alloc_loop : forall cs st nx, (forall c, In c cs -> c < n) -> sshape n st ->
+    afor (fun c s' => aexec L ms lb rt rl (AIfUsedNonEmpty (ASeq ASetFirstFromUsed AVtblResizeUsed)) (mk_acx (Some c) None None None) s') cs (mk_ast st nx)
+    = Some (mk_ast (fold_left alloc_step cs st) nx, false).
+  Proof.
+    induction cs as [|c cs IH]; intros st nx Hcs Hs; cbn [afor fold_left]; [reflexivity|].
+    assert (Hstep : aexec L ms lb rt rl (AIfUsedNonEmpty (ASeq ASetFirstFromUsed AVtblResizeUsed)) (mk_acx (Some c) None None None) (mk_ast st nx)
+                    = Some (mk_ast (alloc_step st c) nx, false) /\ sshape n (alloc_step st c)).
+    { unfold alloc_step. cbn [aexec ac_cls as_st as_next]. cbv zeta.
+      destruct (N.eqb (nth c (s_used st) 0%N) 0); [split; [reflexivity|exact Hs]|].
+      unfold upd_vlen, upd_first. cbn [s_slots s_used s_resv s_mark s_first s_vlen s_fuel_ok].
+      destruct Hs as [H1 H2].
+      rewrite nth_set_nth_eq by (rewrite H2; apply Hcs; now left).
+      split; [reflexivity|]. split; cbn [s_used s_first]; [exact H1|now rewrite length_set_nth]. }
+    destruct Hstep as [E Hs']. rewrite E. apply IH; [intros d Hd; apply Hcs; now right|exact Hs'].
+  Qed.
+End Driver.
+
+Lemma aexec_new_mark L ms lb rt rl x s :
+  aexec L ms lb rt rl ANewClassMark x s = Some (mk_ast (upd_mark (as_st s) (map (fun _ => false) (s_mark (as_st s)))) (as_next s), false).
+Proof. reflexivity. Qed.
+
+Lemma map_const_false : forall (l : list bool), map (fun _ => false) l = repeat false (length l).
+Proof. induction l as [|b l IH]; cbn [map length repeat]; [reflexivity|now rewrite IH]. Qed.
+
+Theorem src_assign_slots L ms : (forall c d, In d (nth c (l_derived L) []) -> d < length (l_keys L)) ->
+  run_assign_slots L ms gen_lattice_assign gen_tree_slots gen_lattice_slots gen_assign_slots = Some (assign_slots L ms).
+Proof.
+  intro Hd. unfold run_assign_slots. cbv zeta. set (n := length (l_keys L)).
+  change gen_assign_slots with main_body. unfold main_body.
+  rewrite aexec_seq, aexec_new_mark. cbn [as_st as_next]. rewrite aexec_seq, aexec_for_classes. fold n.
+  set (st0 := upd_mark (slots_start L ms) _).
+  assert (E0 : st0 = slots_start L ms).
+  { unfold st0, slots_start, upd_mark. cbv zeta. cbn [s_slots s_used s_resv s_mark s_first s_vlen s_fuel_ok]. fold n.
+    now rewrite map_const_false, repeat_length. }
+  rewrite E0. clear st0 E0.
+  assert (Hs0 : sshape n (slots_start L ms)).
+  { unfold slots_start, sshape. cbv zeta. cbn [s_used s_first]. fold n. now rewrite !repeat_length. }
+  destruct (roots_loop L ms gen_lattice_assign n (tree_fun (S n) L ms gen_tree_slots) (lat_fun (S n) L ms gen_lattice_assign gen_lattice_slots)
+              (fun st c => assign_tree (S n) L ms st c 0) (fun st c => assign_lattice (S n) L ms st c)
+              (fun c st => src_assign_tree L ms (S n) c 0 st)
+              (fun c st Hc Hs => src_assign_lattice L ms n Hd (S n) c st Hc Hs)
+              (fun c st Hs => assign_tree_shape L ms n (S n) c 0 st Hs)
+              (fun c st Hs => assign_lattice_shape L ms n (S n) c st Hs)
+              (seq 0 n) (slots_start L ms) None) as [E1 Hs1]; [intros c Hc; apply in_seq in Hc; lia|exact Hs0|].
+  rewrite E1. rewrite aexec_for_classes. fold n.
+  rewrite (alloc_loop L ms gen_lattice_assign n _ _ (seq 0 n) _ None) by (try exact Hs1; intros c Hc; apply in_seq in Hc; lia).
+  cbn [as_st]. reflexivity.
+Qed.
